@@ -81,7 +81,8 @@ fn red_v() -> BoxedStrategy<Red> {
             let comp = || prop_oneof![3 => Just(0u32), 1 => Just(1000u32), 6 => 0u32..=3000];
             (comp(), comp(), comp()).prop_map(|(a, b, c)| Red::Valid([a, b, c]))
         },
-        7 => select(vec!["abc", "1.0 x 2", "uno dos tres"]).prop_map(|s| Red::Invalid(s.to_string())),
+        // (not a triple: text, too few or too many items, decimal commas, a trailing comma)
+        7 => select(vec!["abc", "1.0 x 2", "uno dos tres", "0.5, 2.0, 0.1, 0.25", "0.5, 2.0, 0.1,", "0,5, 2,0, 0,1", "1.5, 0.5", "0.5, 2.0, 0.1, x"]).prop_map(|s| Red::Invalid(s.to_string())),
     ]
     .boxed()
 }
@@ -300,8 +301,11 @@ fn meta_of(text: &str) -> Vec<(String, String)> {
 }
 
 fn triple_of(s: &str) -> Option<[f32; 3]> {
-    let v: Vec<f32> = s.split(',').filter_map(|x| x.trim().parse::<f32>().ok()).collect();
-    if v.len() == 3 {
+    // exactly three numeric items (the form the program writes); an invalid value that the program left
+    // in place, such as `0.5, 2.0, 0.1, x`, is not a recorded triple
+    let items: Vec<&str> = s.split(',').collect();
+    let v: Vec<f32> = items.iter().filter_map(|x| x.trim().parse::<f32>().ok()).collect();
+    if items.len() == 3 && v.len() == 3 {
         Some([v[0], v[1], v[2]])
     } else {
         None
